@@ -198,7 +198,7 @@ def gen_exhaustive(tier):
                             for w in ws:
                                 cases.append((["list", kind, c, items, None, s, pat], w))
                             if (n + c + s + fam) % 4 == 0:
-                                for forced in (2, 4, 5, 9):
+                                for forced in (0, 2, 4, 5, 9):
                                     cases.append((["list", kind, c, items, forced, s, pat], 20))
     return cases
 
@@ -270,7 +270,28 @@ def classify_mismatch(spec, w, i, m):
     return "layout-differs"
 
 
-def evaluate(chk, cases, label_, first_width=None):
+def build_grown(spec):
+    """The tree of `spec` built WITHOUT the last item of one of its list containers (a nested one when there is one, else the
+    top one) plus the function that adds that item afterwards: a container shown once and then extended must lay out like
+    one built complete.  None when the spec has no list item to withhold."""
+    if spec[0] != "list" or not spec[3]:
+        return None
+    inner_at = next((k for k, x in enumerate(spec[3]) if x[0] == "list" and x[3]), None)
+    if inner_at is None:
+        short = list(spec); short[3] = spec[3][:-1]
+        obj = rc.build(short)
+        return obj, (lambda: obj.add(rc.build(spec[3][-1])))
+    inner = spec[3][inner_at]
+    ishort = list(inner); ishort[3] = inner[3][:-1]
+    iobj = rc.build(ishort)
+    outer = list(spec); outer[3] = []
+    obj = rc.build(outer)
+    for k, x in enumerate(spec[3]):
+        obj.add(iobj if k == inner_at else rc.build(x))
+    return obj, (lambda: iobj.add(rc.build(inner[3][-1])))
+
+
+def evaluate(chk, cases, label_, first_width=None, grow=False):
     """first_width: the object is rendered once at that width before the render under test (a container that
     was already shown and is shown again at another width must lay out, fit and refuse exactly as a fresh one)."""
     bad = 0
@@ -279,6 +300,12 @@ def evaluate(chk, cases, label_, first_width=None):
         res_m = rc.model_render(part)
         for (spec, w), m in zip(part, res_m):
             obj = rc.build(spec)
+            if grow:
+                g = build_grown(spec)
+                if g is not None:
+                    obj, add_last = g
+                    rc.impl_render(obj, w)            # shown once, incomplete, at the SAME width
+                    add_last()
             if first_width is not None:
                 rc.impl_render(obj, first_width)
             i = rc.impl_render(obj, w)
@@ -337,6 +364,8 @@ def run(chk, tier):
     again = gen_random(tier, chk.rng)
     evaluate(chk, again[:len(again) // 3], "shown-before-at-60", first_width=60)
     evaluate(chk, ex[::7], "exhaustive-shown-before-at-47", first_width=47)
+    # shown once at the same width with one item (of a nested list, when there is one) still missing, then completed
+    evaluate(chk, again[len(again) // 3:2 * len(again) // 3], "completed-after-a-render", grow=True)
 
 
 def replay(path):
